@@ -80,6 +80,12 @@ func asRandomScenario(rng *rand.Rand, ops [][2]string, vias []string) (*asScenar
 	if rng.Intn(3) == 0 {
 		sc.Cfg.FailMode = "panic" // handlers fail by panicking instead of calling ctx.Failed
 	}
+	if rng.Intn(6) == 0 {
+		sc.Cfg.KillFail = []string{sc.Names[rng.Intn(len(sc.Names))]} // its OnKill handler panics
+	}
+	if rng.Intn(4) == 0 {
+		sc.Cfg.NoProvider = []string{sc.Names[rng.Intn(len(sc.Names))]} // restarted as the same Go object
+	}
 	if rng.Intn(5) == 0 {
 		sc.Cfg.RelaunchFail = []string{sc.Names[rng.Intn(len(sc.Names))]} // a double fault: the first launch after a restart fails
 	}
@@ -197,6 +203,28 @@ func asOverlappingEscalations(rng *rand.Rand) (*asScenario, []asStep) {
 	}
 	sc.Cfg.Decision["a"] = "escalate"
 	sc.Cfg.Decision["t"] = "resume"
+	if rng.Intn(5) == 0 {
+		// the OnKill handler of an actor that is being stopped (immediately or by poison) panics: no supervision
+		who := []string{"b", "c", "d", "a"}[rng.Intn(4)]
+		sc.Cfg.KillFail = []string{who}
+		steps := []asStep{{A: "spawn", X: "t"}, {A: "settle"}, {A: "tell", X: who, Op: "nop"},
+			{A: "kill", X: []string{who, who, "a"}[rng.Intn(3)], Poison: rng.Intn(3) > 0}, {A: "settle"}, {A: "tell", X: "b", Op: "nop"}, {A: "settle"}}
+		return sc, steps
+	}
+	if rng.Intn(5) == 0 {
+		// an actor (with or without a provider) replaces or stacks its behaviour, fails and is restarted: the next message
+		// is handled by OnReceive again ("Restart ... resets state")
+		who := []string{"b", "c", "d"}[rng.Intn(3)]
+		sc.Cfg.Decision["a"] = []string{"restart", "grestart"}[rng.Intn(2)]
+		sc.Cfg.Decision["t"] = sc.Cfg.Decision["a"]
+		sc.Cfg.Decision["c"] = sc.Cfg.Decision["a"]
+		if rng.Intn(2) == 0 {
+			sc.Cfg.NoProvider = []string{who}
+		}
+		steps := []asStep{{A: "spawn", X: "t"}, {A: "settle"}, {A: "tell", X: who, Op: []string{"become!", "become"}[rng.Intn(2)]}, {A: "settle"},
+			{A: "tell", X: who, Op: "nop"}, {A: "tell", X: who, Op: "fail"}, {A: "settle"}, {A: "tell", X: who, Op: "nop"}, {A: "settle"}}
+		return sc, steps
+	}
 	if rng.Intn(4) == 0 {
 		// one-for-all Restart of a (which has a child, so its restart spans several turns) and b; a Kill aimed at a arrives
 		// while a waits for its child, before b has handled its own Restart: a terminates, b must come back
@@ -736,7 +764,7 @@ func init() {
 		c.Add("traces_validated_against_impl", int64(res.Validated))
 	})
 	register("C08", func(c *core.Ctx) {
-		asCheck(c, asPlan{prop: "C08", monitors: []string{"SuperviseMon", "StateMon"}, mc: t3, gen: g3, ops: [][2]string{{"nop", ""}, {"nop", ""}, {"fail", ""}, {"tell", "@"}}, directed: asOverlappingEscalations,
+		asCheck(c, asPlan{prop: "C08", monitors: []string{"SuperviseMon", "StateMon", "LifecycleMon"}, mc: t3, gen: g3, ops: [][2]string{{"nop", ""}, {"nop", ""}, {"fail", ""}, {"tell", "@"}, {"become!", ""}}, directed: asOverlappingEscalations,
 			rule: base + "Judged by SuperviseMon and StateMon (the jobs of a resumed actor's scheduler survive; restart targets keep their reference when a Kill arrives during a one-for-all restart)."})
 	})
 	register("C05", func(c *core.Ctx) {
